@@ -217,3 +217,117 @@ PROPS["C07"] = {"level": "model_checking", "conc": False, "assumptions": [
     "the instrumented pointer type follows Arc: increment Relaxed, decrement Release, Acquire fence at zero",
     "executions are interleavings: races that need a stale (non-latest) read are outside this monitor (DESIGN section 4)"]}
 NONTRIVIAL["C07"] = ("distinct executions in which a value allocated by one thread is dereferenced by another", lambda evs: True)
+
+
+# ------------------------------------------------------------------ C14: all strategies, one sequential specification
+def seq_programs(tier, seed, wd, P):
+    """Programs enumerated by TLC from spec/SeqGen.tla (exhaustive to a depth, then random deeper ones)."""
+    import os, re, json, subprocess, random
+    progs = []
+    stats = {}
+
+    def run(maxlen, simulate=None, nc=1, cache="TRUE"):
+        cfg = os.path.join(P.SPEC, "SeqGen_run_%d_%d.cfg" % (maxlen, nc))
+        with open(cfg, "w") as f:
+            f.write("SPECIFICATION Spec\nCONSTANTS MaxLen = %d  NC = %d  NG = 2  NH = 2  WithCache = %s\nINVARIANT PrintProgram\nCHECK_DEADLOCK FALSE\n" % (maxlen, nc, cache))
+        extra = ["-simulate", "num=%d" % simulate, "-depth", str(maxlen + nc + 1), "-seed", str(seed + 7)] if simulate else []
+        rc, out, wall = P.tlc("SeqGen.tla", os.path.basename(cfg), wd, workers=4, timeout=1200, extra=extra, heap="4g")
+        os.remove(cfg)
+        res = []
+        for m in re.finditer(r'<<"PROG", "(.*?)">>', out.replace("\n", "")):
+            res.append(json.loads(m.group(1).replace('\\"', '"')))
+        if not res:
+            raise P.ToolError("SeqGen produced no programs:\n" + out[-1500:])
+        st, tr = P.mc_stats(out)
+        return res, st, tr
+    p2, s2, t2 = run(2)
+    stats["len2_exhaustive"] = len(p2)
+    progs += p2
+    p3, s3, t3 = run(3)
+    stats["len3_enumerated"] = len(p3)
+    rng = random.Random(seed)
+    if tier == "quick":
+        rng.shuffle(p3)
+        p3 = p3[:2500]
+    stats["len3_used"] = len(p3)
+    progs += p3
+    def sample(ps, n):
+        uniq = list({json.dumps(p, sort_keys=True): p for p in ps}.values())
+        rng.shuffle(uniq)
+        return uniq[:n]
+    p6, s6, t6 = run(6, simulate=(100 if tier == "quick" else 1000))
+    p6 = sample(p6, 1500 if tier == "quick" else 20000)
+    stats["len6_random"] = len(p6)
+    progs += p6
+    pc, sc, tc = run(4, simulate=(100 if tier == "quick" else 1000), nc=2, cache="FALSE")
+    pc = sample(pc, 600 if tier == "quick" else 8000)
+    stats["len4_two_containers_random"] = len(pc)
+    progs += pc
+    stats["states"] = s2 + s3
+    stats["transitions"] = t2 + t3
+    return progs, stats
+
+
+def seq_stage(tier, seed, key, P):
+    import json, os, time
+    wd = os.path.join(P.CACHE, "%s-%s-%d-seq" % (key, tier, seed))
+    marker = os.path.join(wd, "seq.json")
+    if os.path.exists(marker):
+        return json.load(open(marker))
+    os.makedirs(wd, exist_ok=True)
+    t0 = time.time()
+    progs, stats = seq_programs(tier, seed, wd, P)
+    jobs = []
+    for i, ops in enumerate(progs):
+        for strat in ("default", "nofast", "rwlock"):
+            jobs.append({"id": len(jobs), "fam": "seq", "pi": i, "strategy": strat,
+                         "prog": {"threads": [ops], "strategy": strat, "reuse": "never"}, "sched": {"kind": "random", "seed": 1}})
+    res = P.run_and_validate(jobs, "seq", wd, atomics="st", specs=("Trace_Abs",))
+    viols = []
+    for v in res["viols"]:
+        job = jobs[v["id"]]
+        v["fam"] = "seq/" + job["strategy"]
+        v["ctx"] = "strategy=" + job["strategy"]
+        v["why"] = "[%s strategy] %s (clause of %s)" % (job["strategy"], v["why"], v["prop"])
+        v["prop"] = "C14"
+        v["key"] = P.viol_key(v)
+        v["replay"] = P.write_replay(v, job)
+        viols.append({k: v[k] for k in ("id", "prop", "why", "spec", "ev", "fam", "key", "replay") if k in v})
+        if len(viols) > 20:
+            break
+    # identical identities under every strategy: compare the (op, returned value) sequences
+    rets = {}
+    for p in res["files"]:
+        cur = None
+        for line in open(p):
+            if line.startswith('{"e":"begin"'):
+                cur = json.loads(line)["id"]
+                rets[cur] = []
+            elif line.startswith('{"c":') and '"e":"ret"' in line:
+                e = json.loads(line)
+                rets[cur].append((e["op"], e["v"]))
+    mism = 0
+    for i in range(len(progs)):
+        a, b, c = rets.get(3 * i), rets.get(3 * i + 1), rets.get(3 * i + 2)
+        if not (a == b == c):
+            mism += 1
+            if mism <= 3:
+                v = {"id": 3 * i, "prop": "C14", "why": "the strategies return different identities for the same sequential program",
+                     "spec": "cross-strategy", "ev": {"default": a, "nofast": b, "rwlock": c}, "fam": "seq", "file": res["files"][0]}
+                v["key"] = "C14/strategies-disagree"
+                viols.append({k: v[k] for k in ("id", "prop", "why", "spec", "ev", "fam", "key")})
+    out = {"viols": viols, "traces": res["execs"],
+           "coverage": {"seq_programs": stats, "seq_events_validated": res["events"], "seq_wall_s": round(time.time() - t0, 1),
+                        "states": stats["states"], "transitions": stats["transitions"], "cross_strategy_mismatches": mism},
+           "samples": [{"program": progs[len(progs) // 2]}]}
+    with open(marker, "w") as f:
+        json.dump(out, f)
+    return out
+
+
+EXTRA["C14"] = seq_stage
+PROPS["C14"] = {"level": "model_checking", "conc": False, "assumptions": [
+    "programs are enumerated by TLC from spec/SeqGen.tla: all programs of length <= 2 (quick: + 2500 of the 29750 of length 3; thorough: all), random ones of length 6 and with 2 containers",
+    "oracle: ArcSwapAbs via Trace_Abs (in a sequential run every returned identity and every count is pinned) + equality of the returned identities across DefaultStrategy, the fallback-only strategy and RwLock<()>",
+    "values are the instrumented pointer type wrapped in Option (null included)"]}
+NONTRIVIAL["C14"] = ("distinct sequential programs x strategies", lambda evs: True)
